@@ -245,6 +245,17 @@ def run_sequences_chunk(ctx, res, cases, provider):
                 states.append(state_of(comp, kind))
             getters = getters_of(comp, kind)
             obs = [log, states[-1], getters]
+            if len(impl) % 4 == 0 and seq:
+                # no hidden state: a twin whose getters are read after every operation ends in the same state and answers
+                twin = icalendar.Event() if kind == 0 else icalendar.Todo()
+                tlog = []
+                for op in seq:
+                    tlog.append(apply_op(twin, kind, op, provider))
+                    getters_of(twin, kind)
+                if [tlog, state_of(twin, kind), getters_of(twin, kind)] != obs:
+                    res.fail("C16: reading start/end/duration between the operations changes the outcome",
+                             {"provider": provider, "kind": "Event" if kind == 0 else "Todo", "ops": [list(o) for o in seq]},
+                             observed=[tlog, state_of(twin, kind), getters_of(twin, kind)], expected=obs)
             wops = [w_op(op, provider) for op in seq]
             setters_only = not any(op[0].startswith("add_") for op in seq)
             res.dist(f"{provider}:{label}")
